@@ -22,7 +22,7 @@ type c14Case struct {
 	Steps []c14Step `json:"steps"`
 }
 
-func (s c14Step) key() string { return fmt.Sprintf("%v|%s|%v", s.Args, s.In, s.Out) }
+func (s c14Step) key() string { return fmt.Sprintf("%q|%s|%v", s.Args, s.In, s.Out) }
 
 var (
 	baselineMu sync.Mutex
@@ -60,7 +60,7 @@ func c14Check(c c14Case) *Violation {
 		got := env.run(expandArgs(s.Args), pool[s.In], s.Out)
 		hist := []string{}
 		for _, p := range c.Steps[:i+1] {
-			hist = append(hist, fmt.Sprintf("[gts %s < %s out=%v]", strings.Join(p.Args, " "), p.In, p.Out))
+			hist = append(hist, fmt.Sprintf("[gts %q < %s out=%v]", p.Args, p.In, p.Out))
 		}
 		if got.Exit != want.Exit {
 			return viol("exit-status", "after %s: cached run exits %d, --no-cache exits %d (stderr %q vs %q)", strings.Join(hist, " ; "), got.Exit, want.Exit, clipStr(got.Stderr, 200), clipStr(want.Stderr, 200))
@@ -96,7 +96,7 @@ func c14Classify(c c14Case) (bool, []string) {
 			case p.In == s.In:
 				labels = append(labels, "same-input-other-options")
 				nt = true
-			case fmt.Sprint(p.Args) == fmt.Sprint(s.Args):
+			case fmt.Sprintf("%q", p.Args) == fmt.Sprintf("%q", s.Args):
 				labels = append(labels, "same-options-other-input")
 				nt = true
 			}
@@ -119,17 +119,17 @@ var c14Variants = map[string][][]string{
 	"complement": {{}, {"-F", "fasta"}, {"-F", "genbank"}},
 	"reverse":    {{}, {"-F", "fasta"}, {"-F", "genbank"}},
 	"repair":     {{}, {"-F", "fasta"}},
-	"define":     {{"gene", "3..12"}, {"gene", "4..12"}, {"CDS", "3..12"}, {"-q", "note=x", "gene", "3..12"}, {"-q", "note=y", "gene", "3..12"}, {"-q", "note=x", "-q", "gene=z", "gene", "3..12"}, {"-q", "gene=z", "-q", "note=x", "gene", "3..12"}, {"-F", "fasta", "gene", "3..12"}},
+	"define":     {{"gene", "3..12"}, {"gene", "4..12"}, {"CDS", "3..12"}, {"-q", "note=x", "gene", "3..12"}, {"-q", "note=y", "gene", "3..12"}, {"-q", "note=x", "-q", "gene=z", "gene", "3..12"}, {"-q", "gene=z", "-q", "note=x", "gene", "3..12"}, {"-q", "note=x y", "gene", "3..12"}, {"-q", "note=x", "-q", "y", "gene", "3..12"}, {"-F", "fasta", "gene", "3..12"}},
 	"delete":     {{"3..12"}, {"3..13"}, {"-e", "3..12"}, {"gene"}, {"-e", "gene"}, {"CDS@^..^+3"}, {"-F", "fasta", "3..12"}},
-	"extract":    {{"gene"}, {"-v", "gene"}, {"CDS"}, {"gene", "CDS"}, {"CDS", "gene"}, {"-v", "gene", "CDS"}, {"gene", "gene"}, {"misc_feature", "CDS", "gene"}, {"gene", "CDS", "misc_feature"}, {}, {"-v"}, {"-F", "fasta", "gene"}, {"3..12"}, {"-v", "3..12"}},
+	"extract":    {{"gene"}, {"-v", "gene"}, {"CDS"}, {"gene", "CDS"}, {"CDS", "gene"}, {"gene CDS"}, {"-v", "gene", "CDS"}, {"gene", "gene"}, {"misc_feature", "CDS", "gene"}, {"gene", "CDS", "misc_feature"}, {}, {"-v"}, {"-F", "fasta", "gene"}, {"3..12"}, {"-v", "3..12"}},
 	"infix":      {{"10", "{host.gb}"}, {"11", "{host.gb}"}, {"10", "{host2.gb}"}, {"-e", "10", "{host.gb}"}, {"-F", "fasta", "10", "{host.gb}"}},
 	"insert":     {{"10", "{guest.gb}"}, {"11", "{guest.gb}"}, {"10", "{guest2.gb}"}, {"10", "@ggttcc"}, {"10", "@ggttca"}, {"-e", "10", "{guest.gb}"}, {"-F", "fasta", "10", "{guest.gb}"}, {"gene", "{guest.fasta}"}},
 	"join":       {{}, {"-c"}, {"-F", "fasta"}},
 	"pick":       {{"1"}, {"2"}, {"1,2"}, {"2,1"}, {"1-2"}, {"-f", "1"}, {"-f", "2"}, {"-F", "fasta", "1"}},
-	"query":      {{}, {"-n", "gene"}, {"-n", "product"}, {"-n", "gene", "-n", "product"}, {"-n", "product", "-n", "gene"}, {"-d", ","}, {"-t", ";"}, {"-H"}, {"--source"}, {"-I"}, {"-K"}, {"-L"}, {"--empty"}, {"--empty", "-n", "product"}},
+	"query":      {{}, {"-n", "gene"}, {"-n", "product"}, {"-n", "gene", "-n", "product"}, {"-n", "product", "-n", "gene"}, {"-n", "gene product"}, {"-d", ","}, {"-d", ", "}, {"-t", "; "}, {"-t", ";"}, {"-H"}, {"--source"}, {"-I"}, {"-K"}, {"-L"}, {"--empty"}, {"--empty", "-n", "product"}},
 	"rotate":     {{"10"}, {"11"}, {"gene"}, {"^+5"}, {"-F", "fasta", "10"}},
-	"search":     {{"@catg"}, {"@gacc"}, {"{query.fasta}"}, {"{query2.fasta}"}, {"-k", "primer_bind", "@catg"}, {"-q", "note=hit", "@catg"}, {"-q", "note=hit", "-q", "label=x", "@catg"}, {"-q", "label=x", "-q", "note=hit", "@catg"}, {"-e", "@catg"}, {"--no-complement", "@catg"}, {"-F", "fasta", "@catg"}},
-	"select":     {{"gene"}, {"CDS"}, {"gene", "CDS"}, {"CDS", "gene"}, {"-v", "gene"}, {"-v", "gene", "CDS"}, {"-s", "forward", "gene"}, {"-s", "reverse", "gene"}, {"/gene=alpha"}, {"-F", "fasta", "gene"}},
+	"search":     {{"@catg"}, {"@gacc"}, {"{query.fasta}"}, {"{query2.fasta}"}, {"-k", "primer_bind", "@catg"}, {"-q", "note=hit", "@catg"}, {"-q", "note=hit", "-q", "label=x", "@catg"}, {"-q", "label=x", "-q", "note=hit", "@catg"}, {"-q", "note=hit label=x", "@catg"}, {"-q", "note=hit", "-q", "label=x", "-k", "misc_feature", "@catg"}, {"-e", "@catg"}, {"--no-complement", "@catg"}, {"-F", "fasta", "@catg"}},
+	"select":     {{"gene"}, {"CDS"}, {"gene", "CDS"}, {"CDS", "gene"}, {"gene CDS"}, {"[gene CDS]"}, {"-v", "gene"}, {"-v", "gene", "CDS"}, {"-s", "forward", "gene"}, {"-s", "reverse", "gene"}, {"/gene=alpha"}, {"-F", "fasta", "gene"}},
 	"sort":       {{}, {"-r"}, {"-F", "fasta"}},
 	"split":      {{"10"}, {"11"}, {"gene"}, {"CDS@^"}, {"-F", "fasta", "10"}},
 	"summary":    {{}, {"-F"}, {"-Q"}, {"-F", "-Q"}},
